@@ -16,6 +16,14 @@ Theorem C07_source_defaults :
 Proof. exact (conj eq_refl (conj eq_refl (conj eq_refl eq_refl))). Qed.
 Print Assumptions C07_source_defaults.
 
+(* T1: in DialToSMTPClientWithContext the fallback dial is the primary dial up to network / address: the same function
+   value (for implicit TLS the tls.Dialer) and the same context (the one carrying the connTimeout deadline).  The
+   model's [connect] dials the fallback without TLS / without a deadline when these flags are false, and the proofs of
+   C07_implicit and C17_no_hang_* then fail *)
+Theorem C07_source_fallback_dial_same_as_primary : src_fallback_same = true.
+Proof. exact (eq_refl true). Qed.
+Print Assumptions C07_source_fallback_dial_same_as_primary.
+
 (* mandatory TLS: whatever the server advertises or replies, only EHLO / HELO / STARTTLS / QUIT leave the process
    outside TLS — during the dial and during a complete DialAndSend *)
 Theorem C07_mandatory : forall fuel cfg (s : srv) v,
